@@ -38,22 +38,36 @@ class Interp:
                 r = self._call(n, env)
                 if r is not None:
                     return r
-            if isinstance(n, ast.ListComp) and len(n.generators) == 1 and isinstance(n.generators[0].target, ast.Name) and not n.generators[0].is_async:
+            if isinstance(n, (ast.ListComp, ast.SetComp, ast.DictComp, ast.GeneratorExp)) and len(n.generators) == 1 and not n.generators[0].is_async:
                 g = n.generators[0]
                 seq = ev(g.iter, env, hook)
-                if isinstance(seq, Opaque):
-                    raise Unknown('comprehension over an opaque sequence')
-                out = []
+                if isinstance(seq, Opaque) or isinstance(seq, str):
+                    raise Unknown('comprehension over an uncomputable sequence')
+                out = {} if isinstance(n, ast.DictComp) else []
                 for x in list(seq):
                     e2 = dict(env)
-                    e2[g.target.id] = x
+                    self._assign(g.target, x, e2)
                     keep = True
                     for c in g.ifs:
                         if not self.value(c, e2):
                             keep = False
                     if keep:
-                        out.append(self.value(n.elt, e2))
-                return (True, out)
+                        if isinstance(n, ast.DictComp):
+                            out[self.value(n.key, e2)] = self.value(n.value, e2)
+                        else:
+                            out.append(self.value(n.elt, e2))
+                return (True, set(out) if isinstance(n, ast.SetComp) else out)
+            if isinstance(n, ast.Dict):
+                d = {}
+                for k, v in zip(n.keys, n.values):
+                    if k is None:
+                        inner = ev(v, env, hook)
+                        if not isinstance(inner, dict):
+                            raise Unknown('** of a value that is not a computable dict')
+                        d.update(inner)
+                    else:
+                        d[ev(k, env, hook)] = ev(v, env, hook)
+                return (True, d)
             if isinstance(n, ast.JoinedStr):
                 s = ''
                 for p in n.values:
@@ -191,7 +205,9 @@ class Interp:
                 return True
             if isinstance(n, (ast.Subscript, ast.Attribute)) and isinstance(n.ctx, (ast.Store, ast.Del)):
                 b = n.value
-                if isinstance(b, ast.Name) and isinstance(env.get(b.id), (list, set, dict)):
+                while isinstance(b, ast.Subscript):
+                    b = b.value
+                if isinstance(env.get(unparse(b)), (list, set, dict)) or (isinstance(n, ast.Attribute) and unparse(n) in env):
                     return True
         return False
 
@@ -207,15 +223,21 @@ class Interp:
                 for t in target.elts:
                     self._assign(t, Opaque(), env)
             return
-        if isinstance(target, (ast.Subscript, ast.Attribute)):
-            b = target.value
-            if isinstance(b, ast.Name) and isinstance(env.get(b.id), (list, dict)) and isinstance(target, ast.Subscript):
+        if isinstance(target, ast.Attribute):
+            env[unparse(target)] = val      # attribute facts are kept by their text (self._field)
+            return
+        if isinstance(target, ast.Subscript):
+            try:
+                base = self.value(target.value, env)
+            except Unknown:
+                return                      # store into an object the interpreter does not model
+            if isinstance(base, (list, dict)):
                 try:
-                    env[b.id][self.value(target.slice, env)] = val
+                    base[self.value(target.slice, env)] = val
                     return
                 except (Unknown, Exception):
                     raise Unknown('store into a tracked container with an uncomputable index: %s' % unparse(target))
-            return      # stores into opaque objects are not observable here
+            return
         raise Unknown('assignment target %s' % unparse(target))
 
     def run(self, body, env):
@@ -267,8 +289,32 @@ class Interp:
                     self.nodes.append(st)
                     e['<effects>'].append((nm, tuple(args), len(self.nodes) - 1))
                     return [], [e]
-                if isinstance(fn, ast.Attribute) and isinstance(fn.value, ast.Name) and isinstance(e.get(fn.value.id), (list, set)):
-                    tgt = e[fn.value.id]
+                recv = None
+                if isinstance(fn, ast.Attribute):
+                    try:
+                        recv = self.value(fn.value, e)
+                    except Unknown:
+                        recv = None
+                if isinstance(recv, dict):
+                    try:
+                        args = [self.value(a, e) for a in v.args]
+                    except Unknown:
+                        raise Unknown('method call on a tracked dict with uncomputable arguments: %s (%s)' % (unparse(v)[:80], loc(v)))
+                    if fn.attr == 'setdefault' and len(args) == 2:
+                        recv.setdefault(args[0], args[1])
+                    elif fn.attr == 'update' and len(args) == 1 and isinstance(args[0], dict) and not v.keywords:
+                        recv.update(args[0])
+                    elif fn.attr == 'pop' and 1 <= len(args) <= 2:
+                        recv.pop(*args) if len(args) == 2 or args[0] in recv else None
+                    elif fn.attr == 'clear' and not args:
+                        recv.clear()
+                    elif fn.attr in ('get', 'keys', 'values', 'items', 'copy'):
+                        pass
+                    else:
+                        raise Unknown('unsupported operation on a tracked dict: %s (%s)' % (unparse(v)[:80], loc(v)))
+                    return [], [e]
+                if isinstance(recv, (list, set)):
+                    tgt = recv
                     try:
                         args = [self.value(a, e) for a in v.args]
                     except Unknown:
@@ -344,7 +390,7 @@ class Interp:
                 seq = self.value(st.iter, e)
             except Unknown:
                 seq = Opaque()
-            if isinstance(seq, (dict,)):
+            if isinstance(seq, dict) or type(seq).__name__ in ('dict_items', 'dict_keys', 'dict_values'):
                 seq = list(seq)
             if not isinstance(seq, (list, tuple, set)):
                 if self._effectful(ast.Module(body=st.body + st.orelse, type_ignores=[]), e):
